@@ -47,7 +47,7 @@ ANCHORS = ['pfhedge.nn.functional:bs_european_delta',
            'pfhedge._utils.parse:parse_volatility']
 DECIDING = ["greek.args_untouched", "greek.alias_invariant", "module.forward_is_delta", "greek.european", "greek.european_binary", "greek.american_binary", "greek.lookback", "autogreek.delta", "autogreek.gamma",
             "autogreek.vega", "autogreek.theta", "autogreek.gamma_from_delta"]
-REQUIRED_BRANCHES = ["t!=1", "K!=1", "put", "american_binary.reached_spot_below", "via.module", "via.functional", "alias.spot_at_running_max"]
+REQUIRED_BRANCHES = ["t!=1", "K!=1", "put", "american_binary.reached_spot_below", "via.module", "via.functional", "alias.spot_at_running_max", "autogreek.create_graph"]
 
 N = 24
 
@@ -271,9 +271,16 @@ def drv_autogreek(ctx, k, rng):
     base = (fam, psig, spotform, sigform)
     scale = (g(S, sig, tau, K).abs() + S + K).detach()
 
+    # create_graph=True keeps the Greek differentiable; its value is the same
+    cg = bool(rng.random() < 0.3)
+    cgkw = {"create_graph": True} if cg else {}
+
     def run(name, fn):
         try:
-            return fn().detach()
+            o = fn()
+            if cg and name != "gfd":
+                ctx.branch("autogreek.create_graph")  # (a Greek that is constant in the differentiated variable legitimately carries no graph: values only)
+            return o.detach()
         except Exception as ex:  # parameterisation legitimately insufficient for this pricer?
             return ex
 
@@ -287,12 +294,12 @@ def drv_autogreek(ctx, k, rng):
         dV, disV = richardson(lambda x: g(S, x, tau, K), sig, 2e-3 * sig, 1)
         dT, disT = richardson(lambda x: g(S, sig, x, K), tau, 2e-3 * tau, 1)
     if sigma_available:
-        out = run("delta", lambda: AG.delta(pricer, **{k_: v_.clone() if isinstance(v_, torch.Tensor) else v_ for k_, v_ in params.items()}))
+        out = run("delta", lambda: AG.delta(pricer, **cgkw, **{k_: v_.clone() if isinstance(v_, torch.Tensor) else v_ for k_, v_ in params.items()}))
         if isinstance(out, Exception):
             ctx.violation("autogreek.delta", "autogreek.delta.exception", f"autogreek.delta raised {out!r}", sig=base, **pts)
         else:
             compare(ctx, "autogreek.delta", "delta", out, dS, disS, scale / S, base + ("delta",), pts)
-        out = run("gamma", lambda: AG.gamma(pricer, **{k_: v_.clone() if isinstance(v_, torch.Tensor) else v_ for k_, v_ in params.items()}))
+        out = run("gamma", lambda: AG.gamma(pricer, **cgkw, **{k_: v_.clone() if isinstance(v_, torch.Tensor) else v_ for k_, v_ in params.items()}))
         if isinstance(out, Exception):
             ctx.violation("autogreek.gamma", "autogreek.gamma.exception", f"autogreek.gamma raised {out!r}", sig=base, **pts)
         else:
@@ -316,13 +323,13 @@ def drv_autogreek(ctx, k, rng):
         else:
             compare(ctx, "autogreek.gamma_from_delta", "gamma_from_delta", out, d2S, dis2S, scale / S.square(), base + ("gfd",), pts, rel=2e-5, ab=1e-7)
     if spot_available_for_vega:
-        out = run("vega", lambda: AG.vega(pricer, **{k_: v_.clone() if isinstance(v_, torch.Tensor) else v_ for k_, v_ in params.items()}))
+        out = run("vega", lambda: AG.vega(pricer, **cgkw, **{k_: v_.clone() if isinstance(v_, torch.Tensor) else v_ for k_, v_ in params.items()}))
         if isinstance(out, Exception):
             ctx.violation("autogreek.vega", "autogreek.vega.exception", f"autogreek.vega raised {out!r}", sig=base, **pts)
         else:
             compare(ctx, "autogreek.vega", "vega", out, dV, disV, scale / sig, base + ("vega",), pts)
     if spot_available_for_vega and sigma_available:
-        out = run("theta", lambda: AG.theta(pricer, **{k_: v_.clone() if isinstance(v_, torch.Tensor) else v_ for k_, v_ in params.items()}))
+        out = run("theta", lambda: AG.theta(pricer, **cgkw, **{k_: v_.clone() if isinstance(v_, torch.Tensor) else v_ for k_, v_ in params.items()}))
         if isinstance(out, Exception):
             ctx.violation("autogreek.theta", "autogreek.theta.exception", f"autogreek.theta raised {out!r}", sig=base, **pts)
         else:
